@@ -106,6 +106,9 @@ def coq_bool(b):
     return 'true' if b else 'false'
 
 
+UNMODELLED = []
+
+
 def catalogue(files, HEADER, coq_str, coq_str_list, GenError):
     sys.path.insert(0, REPO)
     import importlib, pkgutil, unicodedata
@@ -185,6 +188,7 @@ def catalogue(files, HEADER, coq_str, coq_str_list, GenError):
             cap = {(): 0, ('cap_first',): 1, ('cap_all',): 2}.get(tuple(mods))
             if cap is not None and isinstance(cells.get('key'), str):
                 return '(HGls %s %d)' % (coq_str(cells['key']), cap)
+        UNMODELLED.append(mod + '.' + qn)
         return '(HUnmodelled %s)' % coq_str(mod + '.' + qn)
 
     def args_term(a):
@@ -400,6 +404,8 @@ Definition py_tables : tables :=
        coq_bool(babel.selectlang_break), coq_bool(babel.otherlang_break),
        coq_str_list(xspace.xspace_excl), coq_str(biblatex.cite_text)))
     files['Catalogue.v'] = '\n'.join(out) + '\n'
+    # handlers the translator has no model for (comment file read by the harness)
+    files['unmodelled.txt'] = ''.join(x + '\n' for x in sorted(set(UNMODELLED)))
 
 
 # ---------------------------------------------------------------------------
